@@ -238,108 +238,129 @@ def _verify_one(args):
 
 
 def _cache_key(qualname, contracts_mod):
-    """results are a pure function of: the function's module source, every contracts/*.py and every vf/*.py file"""
+    """first-level key: everything a result depends on *except* the package source - the contract and engine files, the
+    evaluated contract clauses (some are built from the source at import time), the solver knobs.  The package modules a
+    result depends on are recorded with it (see _cache_lookup)."""
     import glob
     import hashlib
+    import importlib
 
     from . import VERIF
 
     h = hashlib.sha256()
-    try:
-        mi, fn, canon = S.resolve_function(qualname) if not qualname.startswith("<") else (None, None, qualname)
-        if mi is not None:
-            h.update(mi.text.encode())
-            # inlined helpers / callees live in other modules: include the whole package text for safety
-            for m in S.all_package_modules():
-                h.update(S.load_module(m).sha.encode())
-    except S.SourceError:
-        h.update(b"missing")
     for f in sorted(glob.glob(os.path.join(VERIF, "contracts", "*.py")) + glob.glob(os.path.join(VERIF, "vf", "*.py"))):
         with open(f, "rb") as fh:
             h.update(fh.read())
+    try:
+        mod = importlib.import_module(contracts_mod)
+        for q in sorted(mod.REGISTRY):
+            c = mod.REGISTRY[q]
+            h.update(repr((q, c.requires, c.ensures, sorted((c.loops or {}).items(), key=lambda kv: str(kv[0])), c.at, sorted((c.raises or {}).items()), c.modifies, c.params, c.result,
+                           sorted((c.ghost or {}).items(), key=lambda kv: kv[0]), c.inline, c.assume_only)).encode())
+    except Exception as e:  # noqa: BLE001
+        h.update(repr(e).encode())
     for k in ("VERIF_Z3_TIMEOUT_MS", "VERIF_CVC5_TIMEOUT_S", "VERIF_SCOPE", "VERIF_TIER"):
         h.update((k + os.environ.get(k, "")).encode())
     h.update(qualname.encode() + contracts_mod.encode())
     return h.hexdigest()[:24]
 
 
-def _cached(qualname, contracts_mod, compute):
-    """content-addressed cache of per-function results (in $VERIF_CACHE or /verif/.cache); the key covers the source under
-    verification, the contracts and the engine, so a changed tree is always re-verified"""
-    import pickle
-
+def _cache_dir():
     from . import VERIF
 
+    return os.environ.get("VERIF_CACHE", os.path.join(VERIF, ".cache"))
+
+
+def _deps_current(deps: dict) -> bool:
+    for m, sha in deps.items():
+        try:
+            if S.load_module(m).sha != sha:
+                return False
+        except S.SourceError:
+            return False
+    return True
+
+
+def _cache_lookup(qualname, contracts_mod):
+    """a stored result is reused when every package module that was read while it was computed still has the same text"""
+    import pickle
+
     if os.environ.get("VERIF_NO_CACHE"):
-        return compute(), False
-    d = os.environ.get("VERIF_CACHE", os.path.join(VERIF, ".cache"))
+        return None
+    path = os.path.join(_cache_dir(), _cache_key(qualname, contracts_mod) + ".pkl")
+    if not os.path.exists(path):
+        return None
+    try:
+        with open(path, "rb") as f:
+            entries = pickle.load(f)
+        for deps, res in entries:
+            if deps and _deps_current(deps):
+                return res
+    except Exception:  # noqa: BLE001
+        return None
+    return None
+
+
+def _cache_store(qualname, contracts_mod, deps, res):
+    import pickle
+
+    if os.environ.get("VERIF_NO_CACHE") or res.status != "ok" or not deps:
+        return
+    d = _cache_dir()
     try:
         os.makedirs(d, exist_ok=True)
         path = os.path.join(d, _cache_key(qualname, contracts_mod) + ".pkl")
+        entries = []
         if os.path.exists(path):
-            with open(path, "rb") as f:
-                return pickle.load(f), True
-    except Exception:
-        path = None
-    res = compute()
-    if path and res.status == "ok":
+            try:
+                with open(path, "rb") as f:
+                    entries = pickle.load(f)
+            except Exception:  # noqa: BLE001
+                entries = []
+        entries = [(dp, r) for dp, r in entries if dp != deps][-5:] + [(deps, res)]
+        tmp = path + f".{os.getpid()}.tmp"
+        with open(tmp, "wb") as f:
+            pickle.dump(entries, f)
+        os.replace(tmp, path)
+    except Exception:  # noqa: BLE001
+        pass
+
+
+def _verify_one_tracked(args):
+    """_verify_one plus the set of package modules it read (name -> text hash)"""
+    S.TOUCHED.clear()
+    res = _verify_one(args)
+    deps = {}
+    for m in sorted(S.TOUCHED):
         try:
-            tmp = path + f".{os.getpid()}.tmp"
-            with open(tmp, "wb") as f:
-                pickle.dump(res, f)
-            os.replace(tmp, path)
-        except Exception:
-            pass
-    return res, False
+            deps[m] = S.load_module(m).sha
+        except S.SourceError:
+            deps[m] = "missing"
+    return res, deps
 
 
 def verify(qualnames, contracts_mod: str, workers=None):
     """Verify the given functions (contracts come from module `contracts_mod` exposing REGISTRY, SPECFUNS)."""
     workers = workers or min(14, os.cpu_count() or 4)
-    cached = {}
+    out = {}
     todo = []
     for q in qualnames:
-        import pickle
-        from . import VERIF
-
-        d = os.environ.get("VERIF_CACHE", os.path.join(VERIF, ".cache"))
-        pth = os.path.join(d, _cache_key(q, contracts_mod) + ".pkl")
-        if not os.environ.get("VERIF_NO_CACHE") and os.path.exists(pth):
-            try:
-                with open(pth, "rb") as f:
-                    cached[q] = pickle.load(f)
-                    cached[q].from_cache = True
-                    continue
-            except Exception:
-                pass
-        todo.append(q)
-    if cached and not todo:
-        return {q: cached[q] for q in qualnames}
-    qualnames_all = list(qualnames)
-    qualnames = todo
-    if len(qualnames) == 1 or workers == 1:
-        outs = [_verify_one((q, contracts_mod, workers)) for q in qualnames]
-    else:
-        with ProcessPoolExecutor(max_workers=min(workers, len(qualnames))) as ex:
-            outs = list(ex.map(_verify_one, [(q, contracts_mod) for q in qualnames]))
-    import pickle
-    from . import VERIF
-
-    d = os.environ.get("VERIF_CACHE", os.path.join(VERIF, ".cache"))
-    for r in outs:
-        if r.status == "ok" and not os.environ.get("VERIF_NO_CACHE"):
-            try:
-                os.makedirs(d, exist_ok=True)
-                pth = os.path.join(d, _cache_key(r.qualname, contracts_mod) + ".pkl")
-                tmp = pth + f".{os.getpid()}.tmp"
-                with open(tmp, "wb") as f:
-                    pickle.dump(r, f)
-                os.replace(tmp, pth)
-            except Exception:
-                pass
-    res = {r.qualname: r for r in outs}
-    res.update(cached)
-    return {q: res[q] for q in qualnames_all}
+        r = _cache_lookup(q, contracts_mod)
+        if r is not None:
+            r.from_cache = True
+            out[q] = r
+        else:
+            todo.append(q)
+    if todo:
+        if len(todo) == 1 or workers == 1:
+            pairs = [_verify_one_tracked((q, contracts_mod, workers)) for q in todo]
+        else:
+            with ProcessPoolExecutor(max_workers=min(workers, len(todo))) as ex:
+                pairs = list(ex.map(_verify_one_tracked, [(q, contracts_mod) for q in todo]))
+        for q, (r, deps) in zip(todo, pairs):
+            _cache_store(q, contracts_mod, deps, r)
+            out[q] = r
+    return {q: out[q] for q in qualnames}
 
 
 def summarize(results) -> dict:
